@@ -311,8 +311,10 @@ func init() {
 	kept := corpus.Addresses()
 	// spellings of the special arguments that only agree with the plain ones
 	// after percent-decoding, in several positions of the query
-	for _, base := range []string{"https://example.com/foo", "https://example.com/d/foo//sub", "http::https://example.com/foo"} {
-		for _, q := range []string{"archive=tar%2Egz", "%61rchive=tar.gz", "archive=%74ar.gz", "archive=t%67z", "archive=tar.gz&x=1", "x=1&archive=tar.gz", "x=1&archive=tar%2egz&y=2", "archive=TGZ", "archive=tar.gz&archive=tar%2Egz", "%61rchive=tgz&archive=tgz", "archive=tgz&checksum=md5:0123", "archive=tar.gz&%63hecksum=x", "x=1&archive=tgz&checksum=", "archive=tgz&Checksum=x"} {
+	for _, base := range []string{"https://example.com/foo", "https://example.com/d/foo//sub", "http::https://example.com/foo", "https://example.com/foo.tgz", "https://example.com/d/foo.tar.gz//sub"} {
+		for _, q := range []string{"archive=tar%2Egz", "%61rchive=tar.gz", "archive=%74ar.gz", "archive=t%67z", "archive=tar.gz&x=1", "x=1&archive=tar.gz", "x=1&archive=tar%2egz&y=2", "archive=TGZ", "archive=tar.gz&archive=tar%2Egz", "%61rchive=tgz&archive=tgz", "archive=tgz&checksum=md5:0123", "archive=tar.gz&%63hecksum=x", "x=1&archive=tgz&checksum=", "archive=tgz&Checksum=x",
+			// the special argument's name never occurs literally
+			"%61rchive=zip", "%61rchive=tgz&%61rchive=tgz", "a%72chive=tar.gz", "check%73um=md5:0123", "%61rchive=tgz&check%73um=x", "x=1&archiv%65=rar"} {
 			kept = append(kept, base+"?"+q)
 		}
 	}
